@@ -1,5 +1,5 @@
 (* Proofs/AliasProofs.v — lemmas about Model/Alias.v and Spec/YamlMergeSpec.v for property C13. *)
-From Coq Require Import List NArith Bool Lia.
+From Coq Require Import List NArith Bool Lia Permutation.
 From YQ Require Import Base.Str Spec.YamlMergeSpec Model.Alias.
 Import ListNotations.
 
@@ -83,7 +83,7 @@ Section CleanStep.
     apply rbind_ok in H as (t' & Ht & H). apply Hrec in Ht.
     destruct t' as [a s|a l|a tes|t']; try discriminate.
     rewrite clean_map in Ht. apply andb_true_iff in Ht as [_ Ht].
-    eapply override_all_clean; eassumption.
+    exact (override_all_clean texts tes idx acc acc' Ht Hacc H).
   Qed.
 
   Lemma apply_seq_rev_clean texts ritems : forall acc acc',
@@ -175,4 +175,640 @@ Theorem explode_plain fuel : forall t t', plain t = true -> explode fuel t = ROk
 Proof.
   induction fuel as [|f IH]; intros t t' Hp H; cbn [explode] in H; [discriminate|].
   eapply explode_step_plain; [exact IH | exact Hp | exact H].
+Qed.
+
+(* ================================================================== *)
+(* 3. one level of merging over plain sources: the three routes        *)
+(* ================================================================== *)
+Lemma str_eqb_sym a b : str_eqb a b = str_eqb b a.
+Proof.
+  destruct (str_eqb a b) eqn:E.
+  - apply str_eqb_eq in E. subst. symmetry. apply str_eqb_refl.
+  - destruct (str_eqb b a) eqn:E'; [|reflexivity]. apply str_eqb_eq in E'. subst.
+    rewrite str_eqb_refl in E. discriminate.
+Qed.
+
+Lemma lookup_entry_none k es : ~ In k (keys es) -> lookup_entry k es = None.
+Proof.
+  induction es as [|[k' v] r IH]; intros H; cbn [lookup_entry]; [reflexivity|].
+  destruct (str_eqb k k') eqn:E.
+  - apply str_eqb_eq in E. subst. exfalso. apply H. left. reflexivity.
+  - apply IH. intro Hin. apply H. right. exact Hin.
+Qed.
+
+Lemma lookup_entry_in k es v : lookup_entry k es = Some v -> In k (keys es).
+Proof.
+  induction es as [|[k' v'] r IH]; cbn [lookup_entry]; [discriminate|].
+  destruct (str_eqb k k') eqn:E; intros H.
+  - apply str_eqb_eq in E. subst. left. reflexivity.
+  - right. apply IH, H.
+Qed.
+
+Lemma entry_plain_inv k v : entry_plain (k, v) = true -> is_merge k = false /\ plain v = true.
+Proof. unfold entry_plain. cbn [fst snd]. intros H. apply andb_true_iff in H as [H1 H2]. apply negb_true_iff in H1. split; assumption. Qed.
+
+(* ---------------- route 1: traversal ---------------- *)
+Section LookPlain.
+  Variable rec : str -> entries -> option node -> res (option node).
+
+  Lemma tlook_step_plain k s : forallb entry_plain s = true -> NoDup (keys s) -> forall acc,
+    tlook_step rec k s acc = ROk (match lookup_entry k s with Some v => Some v | None => acc end).
+  Proof.
+    induction s as [|[k' v] r IH]; intros Hp Hn acc; cbn [tlook_step lookup_entry]; [reflexivity|].
+    cbn [forallb] in Hp. apply andb_true_iff in Hp as [Hkv Hp]. apply entry_plain_inv in Hkv as [Hk' _].
+    cbn [keys map fst] in Hn. inversion Hn as [|? ? Hnotin Hn']; subst.
+    rewrite Hk'. cbn [andb]. rewrite (str_eqb_sym k' k).
+    destruct (str_eqb k k') eqn:E.
+    - apply str_eqb_eq in E. subst k'. rewrite (IH Hp Hn').
+      rewrite (lookup_entry_none _ _ Hnotin). reflexivity.
+    - apply IH; assumption.
+  Qed.
+End LookPlain.
+
+Lemma tlook_plain f k s acc o :
+  forallb entry_plain s = true -> NoDup (keys s) -> tlook f k s acc = ROk o ->
+  o = match lookup_entry k s with Some v => Some v | None => acc end.
+Proof.
+  intros Hp Hn H. destruct f as [|f]; cbn [tlook] in H; [discriminate|].
+  rewrite tlook_step_plain in H by assumption. injection H as <-. reflexivity.
+Qed.
+
+Fixpoint tmerge_list (rec : str -> entries -> option node -> res (option node)) (k : str) (items : list node) (acc : option node) : res (option node) :=
+  match items with
+  | [] => ROk acc
+  | x :: r => rbind (tmerge rec k x acc) (tmerge_list rec k r)
+  end.
+
+Lemma tmerge_seq rec k a items : forall acc, tmerge rec k (Sq a items) acc = tmerge_list rec k items acc.
+Proof.
+  induction items as [|x r IH]; intros acc; [reflexivity|].
+  cbn [tmerge tmerge_list]. destruct (tmerge rec k x acc) as [o| | |]; cbn [rbind]; try reflexivity.
+  specialize (IH o). cbn [tmerge] in IH. exact IH.
+Qed.
+
+Lemma NoDup_app_l {A : Type} (l1 l2 : list A) : NoDup (l1 ++ l2) -> NoDup l1.
+Proof. induction l1 as [|a l1 IH]; intros H; [constructor|]. inversion H as [|? ? Hn H']; subst. constructor; [intro Hin; apply Hn, in_or_app; left; exact Hin | apply IH, H']. Qed.
+
+Lemma NoDup_app_r {A : Type} (l1 l2 : list A) : NoDup (l1 ++ l2) -> NoDup l2.
+Proof. induction l1 as [|a l1 IH]; intros H; [exact H|]. inversion H; subst. apply IH. assumption. Qed.
+
+Lemma NoDup_app_disj {A : Type} (l1 l2 : list A) x : NoDup (l1 ++ l2) -> In x l1 -> ~ In x l2.
+Proof.
+  induction l1 as [|a l1 IH]; intros H Hin; [destruct Hin|].
+  inversion H as [|? ? Hn H']; subst. destruct Hin as [->|Hin].
+  - intro Hx. apply Hn, in_or_app. right. exact Hx.
+  - apply IH; assumption.
+Qed.
+
+Lemma lookup_first_none k srcs : ~ In k (flat_map keys srcs) -> lookup_first k srcs = None.
+Proof.
+  induction srcs as [|s r IH]; intros H; cbn [lookup_first]; [reflexivity|].
+  cbn [flat_map] in H. rewrite lookup_entry_none by (intro Hin; apply H, in_or_app; left; exact Hin).
+  apply IH. intro Hin. apply H, in_or_app. right. exact Hin.
+Qed.
+
+Lemma tmerge_list_sources f k srcs : forall acc o,
+  NoDup (flat_map keys srcs) -> (forall s, In s srcs -> forallb entry_plain s = true) ->
+  tmerge_list (tlook f) k (map (fun s => Al (Mp true s)) srcs) acc = ROk o ->
+  o = match lookup_first k srcs with Some v => Some v | None => acc end.
+Proof.
+  induction srcs as [|s r IH]; intros acc o Hn Hp H; cbn [map tmerge_list lookup_first] in *.
+  - injection H as <-. reflexivity.
+  - cbn [flat_map] in Hn. apply rbind_ok in H as (o1 & H1 & H). cbn [tmerge] in H1.
+    apply tlook_plain in H1; [| apply Hp; left; reflexivity | eapply NoDup_app_l, Hn].
+    apply IH in H; [| eapply NoDup_app_r, Hn | intros s' Hs'; apply Hp; right; exact Hs'].
+    subst o o1. destruct (lookup_entry k s) as [v|] eqn:El; [|reflexivity].
+    rewrite lookup_first_none; [reflexivity|].
+    eapply NoDup_app_disj; [exact Hn|]. eapply lookup_entry_in, El.
+Qed.
+
+Lemma tmerge_merge_value f k srcs acc o :
+  NoDup (flat_map keys srcs) -> (forall s, In s srcs -> forallb entry_plain s = true) ->
+  tmerge (tlook f) k (merge_value srcs) acc = ROk o ->
+  o = match lookup_first k srcs with Some v => Some v | None => acc end.
+Proof.
+  intros Hn Hp H. unfold merge_value in H.
+  destruct srcs as [|s [|s2 r]].
+  - rewrite tmerge_seq in H. eapply tmerge_list_sources; eassumption.
+  - cbn [tmerge] in H. cbn [lookup_first].
+    apply tlook_plain in H; [| apply Hp; left; reflexivity |].
+    + subst o. destruct (lookup_entry k s); reflexivity.
+    + cbn [flat_map] in Hn. rewrite app_nil_r in Hn. exact Hn.
+  - rewrite tmerge_seq in H. eapply tmerge_list_sources; eassumption.
+Qed.
+
+Theorem route1_flat fuel srcs expl k r :
+  merge_simple srcs expl -> is_merge k = false ->
+  tlook fuel k ((merge_key, merge_value srcs) :: expl) None = ROk r -> r = spec_lookup k srcs expl.
+Proof.
+  intros (Hn & Hp & _ & Hne & Hpe & _) Hk H.
+  destruct fuel as [|f]; cbn [tlook] in H; [discriminate|].
+  cbn [tlook_step] in H. unfold is_merge at 1 in H. rewrite str_eqb_refl, Hk in H. cbn [andb negb] in H.
+  apply rbind_ok in H as (o1 & H1 & H).
+  apply tmerge_merge_value in H1; [|assumption|assumption].
+  rewrite tlook_step_plain in H by assumption. injection H as <-.
+  unfold spec_lookup. subst o1. destruct (lookup_entry k expl); [reflexivity|].
+  destruct (lookup_first k srcs); reflexivity.
+Qed.
+
+(* ---------------- the spec on the same map ---------------- *)
+Lemma all_some_map_ok {A B : Type} (f : A -> option B) (g : A -> B) (l : list A) r :
+  (forall x y, In x l -> f x = Some y -> y = g x) -> all_some (map f l) = Some r -> r = map g l.
+Proof.
+  revert r. induction l as [|x t IH]; intros r Hf H; cbn [map all_some] in H.
+  - injection H as <-. reflexivity.
+  - destruct (f x) as [y|] eqn:E; [|discriminate].
+    destruct (all_some (map f t)) as [t'|] eqn:Et; [|discriminate]. injection H as <-.
+    cbn [map]. rewrite (Hf x y (or_introl eq_refl) E). f_equal.
+    apply IH; [|reflexivity]. intros x' y' Hx'. apply Hf. right. exact Hx'.
+Qed.
+
+Definition entry_value (kv : str * node) : str * value := (fst kv, value_of (snd kv)).
+
+Lemma filter_plain_nonmerge es : forallb entry_plain es = true -> filter (fun kv => negb (is_merge (fst kv))) es = es.
+Proof.
+  induction es as [|[k v] r IH]; intros H; [reflexivity|].
+  cbn [forallb] in H. apply andb_true_iff in H as [Hkv H]. apply entry_plain_inv in Hkv as [Hk _].
+  cbn [filter fst]. rewrite Hk. cbn [negb]. f_equal. apply IH, H.
+Qed.
+
+Lemma filter_plain_merge es : forallb entry_plain es = true -> filter (fun kv => is_merge (fst kv)) es = [].
+Proof.
+  induction es as [|[k v] r IH]; intros H; [reflexivity|].
+  cbn [forallb] in H. apply andb_true_iff in H as [Hkv H]. apply entry_plain_inv in Hkv as [Hk _].
+  cbn [filter fst]. rewrite Hk. apply IH, H.
+Qed.
+
+Section ResolvePlain.
+  Variable rec : node -> option value.
+  Hypothesis Hrec : forall t v, plain t = true -> rec t = Some v -> v = value_of t.
+
+  Lemma resolve_step_plain t v : plain t = true -> resolve_step rec t = Some v -> v = value_of t.
+  Proof.
+    destruct t as [a s|a l|a es|t0]; cbn [resolve_step plain value_of]; intros Hp H; try discriminate.
+    - injection H as <-. reflexivity.
+    - destruct (all_some (map rec l)) as [l'|] eqn:E; cbn [option_map] in H; [|discriminate]. injection H as <-.
+      f_equal. eapply all_some_map_ok; [|exact E].
+      intros x y Hx Hy. apply Hrec; [|exact Hy]. rewrite forallb_forall in Hp. apply Hp, Hx.
+    - fold entry_plain in Hp. change (forallb (fun kv => negb (is_merge (fst kv)) && plain (snd kv)) es) with (forallb entry_plain es) in Hp.
+      rewrite (filter_plain_nonmerge _ Hp), (filter_plain_merge _ Hp) in H. cbn [map all_some concat] in H.
+      destruct (all_some _) as [ex|] eqn:E; [|discriminate]. injection H as <-. rewrite app_nil_r. f_equal.
+      eapply (all_some_map_ok _ entry_value); [|exact E].
+      intros [k x] y Hx Hy. cbn [fst snd] in Hy. destruct (rec x) as [vx|] eqn:Ex; cbn [option_map] in Hy; [|discriminate].
+      injection Hy as <-. unfold entry_value. cbn [fst snd]. f_equal. apply Hrec; [|exact Ex].
+      rewrite forallb_forall in Hp. apply (entry_plain_inv k x). apply Hp, Hx.
+  Qed.
+End ResolvePlain.
+
+Lemma resolve_plain fuel : forall t v, plain t = true -> resolve fuel t = Some v -> v = value_of t.
+Proof.
+  induction fuel as [|f IH]; intros t v Hp H; cbn [resolve] in H; [discriminate|].
+  eapply resolve_step_plain; [exact IH | exact Hp | exact H].
+Qed.
+
+Lemma plain_map a s : forallb entry_plain s = true -> plain (Mp a s) = true.
+Proof. intros H. exact H. Qed.
+
+Lemma vlookup_app k es1 es2 :
+  vlookup k (es1 ++ es2) = match vlookup k es1 with Some v => Some v | None => vlookup k es2 end.
+Proof.
+  induction es1 as [|[k' v] r IH]; cbn [app vlookup]; [reflexivity|].
+  destruct (str_eqb k k'); [reflexivity | exact IH].
+Qed.
+
+Lemma vlookup_entry_value k es : vlookup k (map entry_value es) = option_map value_of (lookup_entry k es).
+Proof.
+  induction es as [|[k' v] r IH]; cbn [map vlookup lookup_entry entry_value fst snd]; [reflexivity|].
+  destruct (str_eqb k k'); [reflexivity | exact IH].
+Qed.
+
+Lemma vlookup_sources k srcs :
+  vlookup k (concat (map (map entry_value) srcs)) = option_map value_of (lookup_first k srcs).
+Proof.
+  induction srcs as [|s r IH]; cbn [map concat lookup_first]; [reflexivity|].
+  rewrite vlookup_app, vlookup_entry_value, IH. destruct (lookup_entry k s); reflexivity.
+Qed.
+
+Lemma source_entries_plain f s es :
+  forallb entry_plain s = true -> source_entries (resolve f) (Al (Mp true s)) = Some es -> es = map entry_value s.
+Proof.
+  intros Hp H. cbn [source_entries] in H. destruct (resolve f (Mp true s)) as [v|] eqn:E; [|discriminate].
+  apply resolve_plain in E; [|apply plain_map, Hp]. subst v. cbn [value_of] in H. injection H as <-. reflexivity.
+Qed.
+
+Lemma merge_sources_value f srcs es :
+  (forall s, In s srcs -> forallb entry_plain s = true) ->
+  merge_sources (resolve f) (merge_value srcs) = Some es -> es = concat (map (map entry_value) srcs).
+Proof.
+  intros Hp H.
+  assert (Hlist : forall l r, (forall s, In s l -> forallb entry_plain s = true) ->
+            all_some (map (source_entries (resolve f)) (map (fun s => Al (Mp true s)) l)) = Some r -> r = map (map entry_value) l).
+  { intros l r Hl Hr. rewrite map_map in Hr. eapply all_some_map_ok; [|exact Hr].
+    intros x y Hx Hy. eapply source_entries_plain; [apply Hl, Hx | exact Hy]. }
+  unfold merge_value in H. destruct srcs as [|s [|s2 r]].
+  - cbn in H. injection H as <-. reflexivity.
+  - cbn [merge_sources] in H. apply source_entries_plain in H; [|apply Hp; left; reflexivity]. subst es.
+    cbn [map concat]. rewrite app_nil_r. reflexivity.
+  - cbn [merge_sources] in H. destruct (all_some _) as [r'|] eqn:E; cbn [option_map] in H; [|discriminate].
+    injection H as <-. apply Hlist in E; [|exact Hp]. subst r'. reflexivity.
+Qed.
+
+Theorem spec_flat fuel a srcs expl k vs :
+  merge_simple srcs expl -> is_merge k = false ->
+  resolve fuel (Mp a ((merge_key, merge_value srcs) :: expl)) = Some (VM vs) ->
+  vlookup k vs = option_map value_of (spec_lookup k srcs expl).
+Proof.
+  intros (Hn & Hp & _ & Hne & Hpe & _) Hk H.
+  destruct fuel as [|f]; cbn [resolve] in H; [discriminate|].
+  assert (Hmk : is_merge merge_key = true) by reflexivity.
+  cbn [resolve_step filter fst] in H. rewrite !Hmk in H. cbn [negb] in H.
+  rewrite (filter_plain_nonmerge _ Hpe), (filter_plain_merge _ Hpe) in H. cbn [map all_some snd] in H.
+  destruct (all_some (map _ expl)) as [ex|] eqn:Eex; [|discriminate].
+  destruct (merge_sources (resolve f) (merge_value srcs)) as [ms|] eqn:Ems; [|discriminate].
+  injection H as <-. cbn [concat]. rewrite app_nil_r.
+  apply merge_sources_value in Ems; [|exact Hp]. subst ms.
+  assert (ex = map entry_value expl) as ->.
+  { eapply (all_some_map_ok _ entry_value); [|exact Eex].
+    intros [k' x] y Hx Hy. cbn [fst snd] in Hy. destruct (resolve f x) as [vx|] eqn:Ex; cbn [option_map] in Hy; [|discriminate].
+    injection Hy as <-. unfold entry_value. cbn [fst snd]. f_equal. eapply resolve_plain; [|exact Ex].
+    rewrite forallb_forall in Hpe. apply (entry_plain_inv k' x). apply Hpe, Hx. }
+  rewrite vlookup_app, vlookup_entry_value, vlookup_sources. unfold spec_lookup.
+  destruct (lookup_entry k expl); reflexivity.
+Qed.
+
+(* ---------------- routes 2 and 3: the exploded map ---------------- *)
+Local Open Scope nat_scope.
+Section NodeInd.
+  Variable P : node -> Prop.
+  Hypothesis Hsc : forall a s, P (Sc a s).
+  Hypothesis Hsq : forall a l, Forall P l -> P (Sq a l).
+  Hypothesis Hmp : forall a es, Forall (fun kv => P (snd kv)) es -> P (Mp a es).
+  Hypothesis Hal : forall t, P t -> P (Al t).
+
+  Fixpoint node_ind' (t : node) : P t :=
+    match t with
+    | Sc a s => Hsc a s
+    | Sq a l =>
+        Hsq a l ((fix go (l : list node) : Forall P l :=
+                    match l with
+                    | [] => Forall_nil P
+                    | x :: r => Forall_cons x (node_ind' x) (go r)
+                    end) l)
+    | Mp a es =>
+        Hmp a es ((fix go (es : entries) : Forall (fun kv => P (snd kv)) es :=
+                     match es with
+                     | [] => Forall_nil _
+                     | (k, v) :: r => Forall_cons (k, v) (node_ind' v) (go r)
+                     end) es)
+    | Al t' => Hal t' (node_ind' t')
+    end.
+End NodeInd.
+
+Lemma strip_idem t : strip_anchors (strip_anchors t) = strip_anchors t.
+Proof.
+  induction t as [a s|a l IH|a es IH|t IH] using node_ind'; cbn [strip_anchors]; try reflexivity.
+  - f_equal. rewrite map_map. apply map_ext_in. intros x Hx. rewrite Forall_forall in IH. apply IH, Hx.
+  - f_equal. rewrite map_map. apply map_ext_in. intros [k v] Hx. cbn [fst snd]. f_equal.
+    rewrite Forall_forall in IH. apply (IH (k, v)), Hx.
+  - f_equal. exact IH.
+Qed.
+
+Lemma strip_plain t : plain t = true -> plain (strip_anchors t) = true.
+Proof.
+  induction t as [a s|a l IH|a es IH|t IH] using node_ind'; cbn [strip_anchors plain]; intros H; try assumption; try reflexivity.
+  - rewrite forallb_forall in *. intros x Hx. apply in_map_iff in Hx as (y & <- & Hy).
+    rewrite Forall_forall in IH. apply IH; [exact Hy | apply H, Hy].
+  - rewrite forallb_forall in *. intros x Hx. apply in_map_iff in Hx as ([k v] & <- & Hy). cbn [fst snd].
+    specialize (H _ Hy). cbn [fst snd] in H. apply andb_true_iff in H as [H1 H2]. rewrite H1. cbn.
+    rewrite Forall_forall in IH. apply (IH (k, v)); assumption.
+Qed.
+
+Definition smap (s : entries) : entries := map (fun kv => (fst kv, strip_anchors (snd kv))) s.
+
+Lemma keys_smap s : keys (smap s) = keys s.
+Proof. unfold keys, smap. rewrite map_map. apply map_ext. reflexivity. Qed.
+
+Lemma lookup_smap k s : lookup_entry k (smap s) = option_map strip_anchors (lookup_entry k s).
+Proof.
+  induction s as [|[k' v] r IH]; cbn [smap map lookup_entry fst snd]; [reflexivity|].
+  destruct (str_eqb k k'); [reflexivity | exact IH].
+Qed.
+
+Lemma plain_smap s : forallb entry_plain s = true -> forallb entry_plain (smap s) = true.
+Proof.
+  intros H. rewrite forallb_forall in *. intros x Hx. apply in_map_iff in Hx as ([k v] & <- & Hy).
+  specialize (H _ Hy). apply entry_plain_inv in H as [H1 H2]. unfold entry_plain. cbn [fst snd].
+  rewrite H1, (strip_plain _ H2). reflexivity.
+Qed.
+
+(* list plumbing *)
+Lemma every2_flat_texts es : every2 (flat_texts es) = map (fun kv => Some (fst kv)) es.
+Proof. induction es as [|[k v] r IH]; [reflexivity|]. cbn [flat_texts flat_map app every2 map fst]. f_equal. exact IH. Qed.
+
+Lemma skipn_flat_texts n : forall es, skipn (2 * n) (flat_texts es) = flat_texts (skipn n es).
+Proof.
+  induction n as [|n IH]; intros es; [reflexivity|].
+  replace (2 * S n) with (S (S (2 * n))) by lia.
+  destruct es as [|[k v] r]; [reflexivity|]. cbn [flat_texts flat_map app skipn]. apply IH.
+Qed.
+
+Lemma later_has_even es n key :
+  later_has (flat_texts es) (2 * n) key = existsb (fun kv => str_eqb (fst kv) key) (skipn n es).
+Proof.
+  unfold later_has. rewrite skipn_flat_texts, every2_flat_texts.
+  induction (skipn n es) as [|[k v] r IH]; [reflexivity|]. cbn [map existsb fst]. rewrite IH. reflexivity.
+Qed.
+
+Lemma in_every2 {A : Type} (x : A) : forall l, In x (every2 l) -> In x l.
+Proof.
+  fix IH 1. intros [|a [|b r]]; cbn [every2]; intros H; [destruct H | exact H |].
+  destruct H as [->|H]; [left; reflexivity | right; right; apply IH, H].
+Qed.
+
+Lemma in_skipn {A : Type} (x : A) n : forall l, In x (skipn n l) -> In x l.
+Proof. induction n as [|n IH]; intros [|a r] H; cbn [skipn] in H; try exact H. right. apply IH, H. Qed.
+
+Lemma in_flat_texts k es : In (Some k) (flat_texts es) -> In k (keys es) \/ In (Some k) (value_texts es).
+Proof.
+  induction es as [|[k' v] r IH]; cbn [flat_texts flat_map app keys value_texts map fst snd]; [intros []|].
+  intros [H|[H|H]].
+  - injection H as ->. left. left. reflexivity.
+  - right. left. exact H.
+  - destruct (IH H) as [H'|H']; [left; right; exact H' | right; right; exact H'].
+Qed.
+
+Lemma later_has_sound es n k : later_has (flat_texts es) n k = true -> In k (keys es) \/ In (Some k) (value_texts es).
+Proof.
+  unfold later_has. intros H. apply existsb_exists in H as (o & Hin & Ho).
+  destruct o as [s|]; [|discriminate]. apply str_eqb_eq in Ho. subst s.
+  apply in_flat_texts. eapply in_skipn, in_every2, Hin.
+Qed.
+
+(* lookups in the accumulator *)
+Lemma has_key_lookup k acc : has_key k acc = false <-> lookup_entry k acc = None.
+Proof.
+  induction acc as [|[k' v] r IH]; cbn [has_key lookup_entry]; [split; reflexivity|].
+  destruct (str_eqb k k'); cbn [orb]; [split; discriminate | exact IH].
+Qed.
+
+Lemma lookup_entry_app k a b :
+  lookup_entry k (a ++ b) = match lookup_entry k a with Some v => Some v | None => lookup_entry k b end.
+Proof.
+  induction a as [|[k' v] r IH]; cbn [app lookup_entry]; [reflexivity|].
+  destruct (str_eqb k k'); [reflexivity | exact IH].
+Qed.
+
+Lemma str_eqb_trans_false k k0 k' : str_eqb k0 k' = true -> str_eqb k k' = str_eqb k k0.
+Proof. intros H. apply str_eqb_eq in H. subst. reflexivity. Qed.
+
+Lemma lookup_replace_first k k0 v acc :
+  has_key k0 acc = true ->
+  lookup_entry k (replace_first k0 v acc) = if str_eqb k k0 then Some v else lookup_entry k acc.
+Proof.
+  induction acc as [|[k' v'] r IH]; cbn [has_key replace_first lookup_entry]; [discriminate|].
+  destruct (str_eqb k0 k') eqn:E0; cbn [orb]; intros H.
+  - cbn [lookup_entry]. rewrite (str_eqb_trans_false k k0 k' E0). destruct (str_eqb k k0); reflexivity.
+  - cbn [lookup_entry]. destruct (str_eqb k k') eqn:E.
+    + destruct (str_eqb k k0) eqn:E1; [|reflexivity].
+      apply str_eqb_eq in E, E1. subst. rewrite str_eqb_refl in E0. discriminate.
+    + apply IH, H.
+Qed.
+
+Lemma lookup_app_single k k0 v acc :
+  has_key k0 acc = false ->
+  lookup_entry k (acc ++ [(k0, v)]) = if str_eqb k k0 then Some v else lookup_entry k acc.
+Proof.
+  intros H. rewrite lookup_entry_app. cbn [lookup_entry].
+  destruct (str_eqb k k0) eqn:E.
+  - apply str_eqb_eq in E. subst. apply has_key_lookup in H. rewrite H. reflexivity.
+  - destruct (lookup_entry k acc); reflexivity.
+Qed.
+
+Section ExplodeFlat.
+  Variable rec : node -> res node.
+  Hypothesis Hrec : forall t t', plain t = true -> rec t = ROk t' -> t' = strip_anchors t.
+
+  (* what one overrideEntry does to the lookup of any key *)
+  Lemma override_entry_lookup texts k0 v0 start acc acc' :
+    plain v0 = true -> override_entry rec texts k0 v0 start acc = ROk acc' ->
+    forall k,
+      lookup_entry k acc' =
+        if str_eqb k k0 then
+          (if has_key k0 acc then Some (strip_anchors v0)
+           else if later_has texts (start + 2) k0 then None else Some (strip_anchors v0))
+        else lookup_entry k acc.
+  Proof.
+    intros Hp H k. unfold override_entry in H. apply rbind_ok in H as (v' & Hv & H).
+    apply Hrec in Hv; [|exact Hp]. subst v'.
+    destruct (has_key k0 acc) eqn:Eh.
+    - injection H as <-. apply lookup_replace_first, Eh.
+    - destruct (later_has texts (start + 2) k0) eqn:El; injection H as <-.
+      + destruct (str_eqb k k0) eqn:E; [|reflexivity]. apply str_eqb_eq in E. subst. apply has_key_lookup, Eh.
+      + apply lookup_app_single, Eh.
+  Qed.
+
+  (* the explicit entries, from position i on *)
+  Lemma recon_explicit es r : forall pre i acc acc',
+    es = pre ++ r -> length pre = i -> forallb entry_plain r = true -> NoDup (keys r) ->
+    recon rec (flat_texts es) r i acc = ROk acc' ->
+    forall k, lookup_entry k acc' =
+              match lookup_entry k r with Some v => Some (strip_anchors v) | None => lookup_entry k acc end.
+  Proof.
+    induction r as [|[k0 v0] r' IH]; intros pre i acc acc' Hes Hlen Hp Hn H k; cbn [recon] in H.
+    - injection H as <-. reflexivity.
+    - cbn [forallb] in Hp. apply andb_true_iff in Hp as [Hkv Hp]. apply entry_plain_inv in Hkv as [Hk0 Hv0].
+      cbn [keys map fst] in Hn. inversion Hn as [|? ? Hnotin Hn']; subst k0 l.
+      rewrite Hk0 in H. apply rbind_ok in H as (acc1 & H1 & H).
+      pose proof (override_entry_lookup _ _ _ _ _ _ Hv0 H1) as Hl.
+      assert (Hnl : later_has (flat_texts es) (2 * i + 2) x = false).
+      { replace (2 * i + 2) with (2 * S i) by lia. rewrite later_has_even.
+        assert (Hsk : skipn (S i) es = r').
+        { rewrite Hes, skipn_app. rewrite <- Hlen.
+          replace (S (length pre) - length pre) with 1 by lia.
+          rewrite skipn_all2 by lia. reflexivity. }
+        rewrite Hsk. destruct (existsb (fun kv => str_eqb (fst kv) x) r') eqn:Ex; [|reflexivity].
+        exfalso. apply existsb_exists in Ex as ([k1 v1] & Hin & Hk1). cbn [fst] in Hk1. apply str_eqb_eq in Hk1. subst k1.
+        apply Hnotin. apply in_map_iff. exists (x, v1). split; [reflexivity | exact Hin]. }
+      specialize (IH (pre ++ [(x, v0)]) (S i) acc1 acc').
+      rewrite (IH ltac:(rewrite <- app_assoc; exact Hes) ltac:(rewrite app_length; cbn; lia) Hp Hn' H k).
+      cbn [lookup_entry]. rewrite (Hl k), Hnl.
+      destruct (str_eqb k x) eqn:E.
+      + apply str_eqb_eq in E. subst k. rewrite (lookup_entry_none _ _ Hnotin).
+        destruct (has_key x acc); reflexivity.
+      + reflexivity.
+  Qed.
+End ExplodeFlat.
+
+Lemma lookup_entry_some_of_in k es : In k (keys es) -> exists v, lookup_entry k es = Some v.
+Proof.
+  induction es as [|[k' v] r IH]; cbn [keys map fst lookup_entry]; [intros []|].
+  intros [H|H].
+  - subst. rewrite str_eqb_refl. eexists; reflexivity.
+  - destruct (str_eqb k k'); [eexists; reflexivity | apply IH, H].
+Qed.
+
+Lemma lookup_first_app k a b :
+  lookup_first k (a ++ b) = match lookup_first k a with Some v => Some v | None => lookup_first k b end.
+Proof.
+  induction a as [|s r IH]; cbn [app lookup_first]; [reflexivity|].
+  destruct (lookup_entry k s); [reflexivity | exact IH].
+Qed.
+
+Lemma lookup_first_in k srcs v : lookup_first k srcs = Some v -> In k (flat_map keys srcs).
+Proof.
+  induction srcs as [|s r IH]; cbn [lookup_first flat_map]; [discriminate|].
+  destruct (lookup_entry k s) as [x|] eqn:E; intros H; apply in_or_app.
+  - left. eapply lookup_entry_in, E.
+  - right. apply IH, H.
+Qed.
+
+Lemma lookup_first_rev k srcs : NoDup (flat_map keys srcs) -> lookup_first k (rev srcs) = lookup_first k srcs.
+Proof.
+  induction srcs as [|s r IH]; intros Hn; [reflexivity|].
+  cbn [rev flat_map] in *. rewrite lookup_first_app, (IH (NoDup_app_r _ _ Hn)). cbn [lookup_first].
+  destruct (lookup_first k r) as [x|] eqn:Er; destruct (lookup_entry k s) as [y|] eqn:Es; try reflexivity.
+  exfalso. eapply NoDup_app_disj; [exact Hn | eapply lookup_entry_in, Es | eapply lookup_first_in, Er].
+Qed.
+
+Lemma indexed_map {A B : Type} (f : A -> B) (l : list A) : forall i,
+  indexed i (map f l) = map (fun js => (fst js, f (snd js))) (indexed i l).
+Proof. induction l as [|a r IH]; intros i; [reflexivity|]. cbn [map indexed fst snd]. f_equal. apply IH. Qed.
+
+Lemma indexed_snd {A : Type} (l : list A) : forall i, map snd (indexed i l) = l.
+Proof. induction l as [|a r IH]; intros i; [reflexivity|]. cbn [indexed map snd]. f_equal. apply IH. Qed.
+
+Section ExplodeFlat2.
+  Variable rec : node -> res node.
+  Hypothesis Hrec : forall t t', plain t = true -> rec t = ROk t' -> t' = strip_anchors t.
+  Variable texts : list (option str).
+  Variable k : str.
+
+  Lemma override_all_k tes : forall start acc acc',
+    forallb entry_plain tes = true -> NoDup (keys tes) ->
+    (In k (keys tes) -> lookup_entry k acc = None /\ forall n, later_has texts n k = false) ->
+    override_all rec texts tes start acc = ROk acc' ->
+    lookup_entry k acc' = match lookup_entry k tes with Some v => Some (strip_anchors v) | None => lookup_entry k acc end.
+  Proof.
+    induction tes as [|[k0 v0] r IH]; intros start acc acc' Hp Hn Hk H; cbn [override_all] in H.
+    - injection H as <-. reflexivity.
+    - cbn [forallb] in Hp. apply andb_true_iff in Hp as [Hkv Hp]. apply entry_plain_inv in Hkv as [_ Hv0].
+      cbn [keys map fst] in Hn, Hk. inversion Hn as [|? ? Hnotin Hn']; subst.
+      apply rbind_ok in H as (acc1 & H1 & H).
+      pose proof (override_entry_lookup rec Hrec _ _ _ _ _ _ Hv0 H1 k) as Hl.
+      cbn [lookup_entry]. destruct (str_eqb k k0) eqn:E.
+      + apply str_eqb_eq in E. subst k0. destruct (Hk (or_introl eq_refl)) as [Hnone Hlater].
+        apply has_key_lookup in Hnone. rewrite Hnone, Hlater in Hl.
+        rewrite (IH _ _ _ Hp Hn' ltac:(intro Hin; exfalso; exact (Hnotin Hin)) H).
+        rewrite (lookup_entry_none _ _ Hnotin). exact Hl.
+      + rewrite <- Hl. eapply IH; [exact Hp | exact Hn' | | exact H].
+        intros Hin. rewrite Hl. apply Hk. right. exact Hin.
+  Qed.
+
+  Lemma apply_alias_k s j acc acc' :
+    forallb entry_plain s = true -> NoDup (keys s) ->
+    (In k (keys s) -> lookup_entry k acc = None /\ forall n, later_has texts n k = false) ->
+    apply_alias rec texts (Al (Mp true s)) j acc = ROk acc' ->
+    lookup_entry k acc' = match lookup_entry k s with Some v => Some (strip_anchors v) | None => lookup_entry k acc end.
+  Proof.
+    intros Hp Hn Hk H. cbn [apply_alias] in H. apply rbind_ok in H as (t' & Ht & H).
+    apply Hrec in Ht; [|apply plain_map, Hp]. subst t'. cbn [strip_anchors] in H. fold (smap s) in H.
+    apply override_all_k in H; [| apply plain_smap, Hp | rewrite keys_smap; exact Hn | rewrite keys_smap; exact Hk].
+    rewrite H, lookup_smap. destruct (lookup_entry k s) as [v|]; cbn [option_map]; [|reflexivity].
+    rewrite strip_idem. reflexivity.
+  Qed.
+
+  Lemma apply_seq_rev_k (L : list (nat * entries)) : forall acc acc',
+    NoDup (flat_map keys (map snd L)) -> (forall s, In s (map snd L) -> forallb entry_plain s = true) ->
+    (In k (flat_map keys (map snd L)) -> lookup_entry k acc = None /\ forall n, later_has texts n k = false) ->
+    apply_seq_rev rec texts (map (fun js => (fst js, Al (Mp true (snd js)))) L) acc = ROk acc' ->
+    lookup_entry k acc' = match lookup_first k (map snd L) with Some v => Some (strip_anchors v) | None => lookup_entry k acc end.
+  Proof.
+    induction L as [|[j s] r IH]; intros acc acc' Hn Hp Hk H; cbn [map apply_seq_rev fst snd lookup_first] in *.
+    - injection H as <-. reflexivity.
+    - cbn [flat_map] in Hn, Hk. apply rbind_ok in H as (acc1 & H1 & H).
+      apply apply_alias_k in H1;
+        [| apply Hp; left; reflexivity | eapply NoDup_app_l, Hn | intros Hin; apply Hk, in_or_app; left; exact Hin].
+      apply IH in H; [| eapply NoDup_app_r, Hn | intros s' Hs'; apply Hp; right; exact Hs' |].
+      + rewrite H, H1. destruct (lookup_entry k s) as [v|] eqn:Es; [|reflexivity].
+        rewrite lookup_first_none; [reflexivity|].
+        eapply NoDup_app_disj; [exact Hn | eapply lookup_entry_in, Es].
+      + intros Hin. destruct (Hk (in_or_app _ _ _ (or_intror Hin))) as [Hnone Hl]. split; [|exact Hl].
+        rewrite H1. rewrite lookup_entry_none; [exact Hnone|].
+        intro Hks. eapply NoDup_app_disj; [exact Hn | exact Hks | exact Hin].
+  Qed.
+End ExplodeFlat2.
+
+Lemma is_merge_false_neq k : is_merge k = false -> k <> merge_key.
+Proof. intros H E. subst. discriminate. Qed.
+
+Lemma merged_key_never_skipped srcs expl k :
+  merge_simple srcs expl -> is_merge k = false -> lookup_entry k expl = None -> In k (flat_map keys srcs) ->
+  forall n, later_has (flat_texts ((merge_key, merge_value srcs) :: expl)) n k = false.
+Proof.
+  intros (Hn & Hp & Hne0 & Hne & Hpe & Hvt) Hk Hnone Hin n.
+  destruct (later_has _ n k) eqn:E; [|reflexivity]. exfalso.
+  apply later_has_sound in E as [E|E].
+  - cbn [keys map fst] in E. destruct E as [E|E]; [symmetry in E; exact (is_merge_false_neq _ Hk E)|].
+    apply lookup_entry_some_of_in in E as (v & Ev). congruence.
+  - cbn [value_texts map snd] in E. destruct E as [E|E]; [|exact (Hvt k Hin E)].
+    unfold merge_value in E. destruct srcs as [|s [|s2 r]]; cbn [node_text] in E; try discriminate;
+      injection E as <-; exact (Hne0 Hin).
+Qed.
+
+Theorem route23_flat fuel a srcs expl k d' :
+  merge_simple srcs expl -> is_merge k = false ->
+  explode fuel (Mp a ((merge_key, merge_value srcs) :: expl)) = ROk d' ->
+  exists es', d' = Mp false es' /\ lookup_entry k es' = option_map strip_anchors (spec_lookup k srcs expl).
+Proof.
+  intros HMS Hk H. pose proof HMS as (Hn & Hp & Hne0 & Hne & Hpe & Hvt).
+  destruct fuel as [|f]; cbn [explode] in H; [discriminate|].
+  set (es := (merge_key, merge_value srcs) :: expl) in *.
+  assert (Hrec : forall t t', plain t = true -> explode f t = ROk t' -> t' = strip_anchors t) by (intros; eapply explode_plain; eassumption).
+  cbn [explode_step] in H. assert (Hm : has_merge es = true) by reflexivity. rewrite Hm in H.
+  apply rbind_ok in H as (es' & He & H). injection H as <-. exists es'. split; [reflexivity|].
+  unfold es in He at 2. cbn [recon] in He. assert (Hmk : is_merge merge_key = true) by reflexivity. rewrite Hmk in He.
+  apply rbind_ok in He as (acc1 & H1 & He).
+  pose proof (recon_explicit (explode f) Hrec es expl [(merge_key, merge_value srcs)] 1 acc1 es' eq_refl eq_refl Hpe Hne He k) as Hfin.
+  rewrite Hfin. unfold spec_lookup. destruct (lookup_entry k expl) as [v|] eqn:Eex; [reflexivity|].
+  (* k is not explicit: what the merge phase left *)
+  assert (Hsrc : lookup_entry k acc1 = match lookup_first k srcs with Some v => Some (strip_anchors v) | None => None end).
+  { assert (Hcond : In k (flat_map keys srcs) -> lookup_entry k (@nil (str * node)) = None /\ forall n, later_has (flat_texts es) n k = false).
+    { intros Hin. split; [reflexivity|]. apply merged_key_never_skipped; assumption. }
+    assert (Hseq : forall items,
+              items = map (fun s => Al (Mp true s)) srcs ->
+              apply_seq_rev (explode f) (flat_texts es) (rev (indexed 0 items)) [] = ROk acc1 ->
+              lookup_entry k acc1 = match lookup_first k srcs with Some v => Some (strip_anchors v) | None => None end).
+    { intros items -> Hs. rewrite indexed_map, <- map_rev in Hs.
+      apply (apply_seq_rev_k (explode f) Hrec (flat_texts es) k) in Hs.
+      - rewrite Hs, map_rev, indexed_snd, lookup_first_rev by exact Hn. reflexivity.
+      - rewrite map_rev, indexed_snd. eapply Permutation_NoDup; [|exact Hn].
+        apply Permutation_flat_map, Permutation_rev.
+      - rewrite map_rev, indexed_snd. intros s Hs'. apply Hp. apply in_rev. exact Hs'.
+      - rewrite map_rev, indexed_snd. intros Hin. apply Hcond.
+        apply in_flat_map in Hin as (s & Hs1 & Hs2). apply in_flat_map. exists s. split; [apply in_rev; exact Hs1 | exact Hs2]. }
+    unfold merge_value in H1. destruct srcs as [|s [|s2 r]].
+    - apply (Hseq []); [reflexivity | exact H1].
+    - cbn [lookup_first]. apply (apply_alias_k (explode f) Hrec (flat_texts es) k) in H1.
+      + rewrite H1. destruct (lookup_entry k s); reflexivity.
+      + apply Hp. left. reflexivity.
+      + cbn [flat_map] in Hn. rewrite app_nil_r in Hn. exact Hn.
+      + intros Hin. apply Hcond. cbn [flat_map]. rewrite app_nil_r. exact Hin.
+    - eapply Hseq; [reflexivity | exact H1]. }
+  rewrite Hsrc. destruct (lookup_first k srcs); reflexivity.
+Qed.
+
+(* the three routes together *)
+Theorem three_routes_flat (fuel : nat) (a : bool) (srcs : list entries) (expl : entries) (k : str) :
+  merge_simple srcs expl -> is_merge k = false ->
+  let es := (merge_key, merge_value srcs) :: expl in
+  let want := spec_lookup k srcs expl in
+  (forall r, tlook fuel k es None = ROk r -> r = want)
+  /\ (forall d', explode fuel (Mp a es) = ROk d' ->
+        exists es', d' = Mp false es' /\ lookup_entry k es' = option_map strip_anchors want)
+  /\ (forall vs, resolve fuel (Mp a es) = Some (VM vs) -> vlookup k vs = option_map value_of want).
+Proof.
+  intros HMS Hk. cbv zeta. split; [|split].
+  - intros r H. eapply route1_flat; eassumption.
+  - intros d' H. eapply route23_flat; eassumption.
+  - intros vs H. eapply spec_flat; eassumption.
 Qed.
